@@ -17,11 +17,11 @@ import (
 func init() {
 	Register(&Rule{
 		ID: "C51", Section: "5 C51",
-		Technique: "control-dependence of every GoOn return on the credential check, reachability from each failing edge to a forwarding return, value-flow from rule configuration to the compared secret, key-function inspection for the JWT algorithm pin, command-table agreement for mod_block",
+		Technique: "control-dependence of every GoOn return on the credential check, reachability from each failing edge to a forwarding return, value-flow from rule configuration to the compared secret, key-function inspection for the JWT algorithm pin, command-table agreement for mod_block, error-gate analysis of the table load chains (publication dominated by the loader's err == nil, success returns gated by every inspected step, failing edges closed)",
 		Meta: core.Meta{
 			Level:       "other",
-			Explanation: "Decides for mod_auth_basic, mod_auth_jwt, mod_secure_link and mod_block: (1) in each handler every `return BfeHandlerGoOn` that is control-dependent on a rule having matched is also control-dependent on the credential check having succeeded, every other verdict returned there is the documented rejection (Response with a non-nil response, or Close), and from the failing edge of the credential check no forwarding return is reachable (no continue/fall-through to a later rule); (2) Basic: checkAuthCredentials returns true only under BasicAuth() ok, a hit in rule.UserPasswd keyed by the request's user name, and auth.CheckSecret(request password, stored hash); (3) JWT: checkAuthCredentials returns either getToken's error or validateToken(token from the Authorization Bearer header, rule); validateToken returns nil only under jwt.Parse(token, key function of a configured key) err == nil, token.Valid and Claims.Valid() == nil; the key function returns the configured key and must read token.Method / the alg header and reject on it; (4) secure link: Checker.Check returns nil only under encode(expression.Value(request)) == query[ChecksumKey], encode hashes its argument with md5, and with an ExpiresKey configured every path to `return nil` passes a comparison against time.Now() whose failing side returns an error; (5) mod_block: globalBlockHandler returns GoOn only when ipTable.Search(session.RemoteAddr.IP) is false and Close when it is true; productRulesProcess forwards a matched request only under Cmd == ALLOW, closes under CLOSE, and knows every command its ActionFileCheck accepts; productBlockHandler returns the verdict of productRulesProcess whenever a rule matched. Not covered: the crypto libraries (go-http-auth, jwt-go, md5/base64), expiry arithmetic and clock, constant-time comparison, what the framework does with Close/Response verdicts (C48), rule matching itself (C16-C18).",
-			RuleText:    "obligations = each verdict return in a matched region, each failing edge of a credential check, each success return of the check functions with its required guards, the compared values' origins, each key function, each accepted mod_block command",
+			Explanation: "Decides for mod_auth_basic, mod_auth_jwt, mod_secure_link and mod_block: (1) in each handler every `return BfeHandlerGoOn` that is control-dependent on a rule having matched is also control-dependent on the credential check having succeeded, every other verdict returned there is the documented rejection (Response with a non-nil response, or Close), and from the failing edge of the credential check no forwarding return is reachable (no continue/fall-through to a later rule); (2) Basic: checkAuthCredentials returns true only under BasicAuth() ok, a hit in rule.UserPasswd keyed by the request's user name, and auth.CheckSecret(request password, stored hash); (3) JWT: checkAuthCredentials returns either getToken's error or validateToken(token from the Authorization Bearer header, rule); validateToken returns nil only under jwt.Parse(token, key function of a configured key) err == nil, token.Valid and Claims.Valid() == nil; the key function returns the configured key and must read token.Method / the alg header and reject on it; (4) secure link: Checker.Check returns nil only under encode(expression.Value(request)) == query[ChecksumKey], encode hashes its argument with md5, and with an ExpiresKey configured every path to `return nil` passes a comparison against time.Now() whose failing side returns an error; (5) mod_block: globalBlockHandler returns GoOn only when ipTable.Search(session.RemoteAddr.IP) is false and Close when it is true; productRulesProcess forwards a matched request only under Cmd == ALLOW, closes under CLOSE, and knows every command its ActionFileCheck accepts; productBlockHandler returns the verdict of productRulesProcess whenever a rule matched. (6) table loading is fail-closed, for mod_block's ipTable and ruleTable and the rule tables of the three auth modules: the value given to <table>.Update is result #0 of a loader call and the Update is reached only through that call's err == nil (load-gate; followed through one or two levels of helper parameters); in the publisher, its static callers (Init), the loader and the module-internal functions it calls as steps (two levels: *ConfLoad/*Check/*Convert, GlobalIPTableLoad, txt_load.CheckAndLoad, getFileInfo, checkLine, ipdict.NewIPItems/Insert*) every return that may carry a nil error is reached only through err == nil of every dominating error-returning call whose error the function inspects or whose value flows into the result, or hands that call's error on unchanged (load-result), and from the err != nil side of such a test no possibly-successful return is reachable (load-fail-closed); a deliberate fallback (a second step that runs only after the first failed, gates the return with its own error, and nothing of the failed step is returned) is accepted. Not covered: the crypto libraries (go-http-auth, jwt-go, md5/base64), the content of a successfully loaded table (line counting and meta-line arithmetic of txt_load, JSON semantics), errors that are discarded without ever being bound (`x, _ := f()` of a step inside a loop), reload handlers reached through the web-monitor function table, expiry arithmetic and clock, constant-time comparison, what the framework does with Close/Response verdicts (C48), rule matching itself (C16-C18).",
+			RuleText:    "obligations = each verdict return in a matched region, each failing edge of a credential check, each success return of the check functions with its required guards, the compared values' origins, each key function, each accepted mod_block command, each table publication, each possibly-successful return and each error-test failing edge of the load-chain functions",
 			Assumptions: []string{"jwt-go rejects alg=none for ordinary keys and HMAC verification of non-[]byte keys (library behaviour, v3.2.0)", "handlers are the only filters the modules register (AddFilter call sites are not re-checked here)"},
 		},
 		Run: runC51,
@@ -42,6 +42,14 @@ func init() {
 			{Name: "block-close-rule-forwards", File: "bfe_modules/mod_block/mod_block.go", Old: "				m.state.ReqRefuse.Inc(1)\n				return bfe_module.BfeHandlerClose, true, nil", New: "				m.state.ReqRefuse.Inc(1)\n				return bfe_module.BfeHandlerGoOn, true, nil", Expect: "mod_block.productRulesProcess"},
 			{Name: "block-global-verdict-ignored", File: "bfe_modules/mod_block/mod_block.go", Old: "		if isMatch {\n			return retVal, resp\n		}", New: "		if isMatch && retVal == bfe_module.BfeHandlerGoOn {\n			return retVal, resp\n		}", Expect: "verdict-propagated"},
 			{Name: "block-unknown-command-accepted", File: "bfe_modules/mod_block/action.go", Old: "	case \"ALLOW\":\n		paramsLenCheck = 0\n", New: "	case \"ALLOW\", \"PASS\":\n		paramsLenCheck = 0\n", Expect: "command-known"},
+			{Name: "block-iptable-partial-load-published", File: "bfe_modules/mod_block/mod_block.go", Old: "	items, err := GlobalIPTableLoad(path)\n	if err != nil {", New: "	items, err := GlobalIPTableLoad(path)\n	if err != nil && items == nil {", Expect: "load-gate|bfe_modules/mod_block.ModuleBlock.ipTable"},
+			{Name: "basic-rule-load-error-tolerated", File: "bfe_modules/mod_auth_basic/mod_auth_basic.go", Old: "	conf, err := AuthBasicConfLoad(path)\n	if err != nil {", New: "	conf, err := AuthBasicConfLoad(path)\n	if err != nil && path != m.configPath {", Expect: "load-gate|bfe_modules/mod_auth_basic"},
+			{Name: "block-rule-check-failure-tolerated", File: "bfe_modules/mod_block/product_rule_load.go", Old: "	err = productRuleConfCheck(config)\n	if err != nil {", New: "	err = productRuleConfCheck(config)\n	if err != nil && config.Version == nil {", Expect: "load-result|bfe_modules/mod_block.ProductRuleConfLoad"},
+			{Name: "block-bad-rule-skipped", File: "bfe_modules/mod_block/product_rule_load.go", Old: "		rule, err := ruleConvert(ruleFile)\n		if err != nil {\n			return nil, err\n		}", New: "		rule, err := ruleConvert(ruleFile)\n		if err != nil {\n			continue\n		}", Expect: "load-fail-closed|bfe_modules/mod_block.ruleListConvert"},
+			{Name: "iptable-scan-error-keeps-partial", File: "bfe_util/ipdict/txt_load/txt_load.go", Old: "	err = scanner.Err()\n	// Scan meets error\n	if err != nil {", New: "	err = scanner.Err()\n	// Scan meets error\n	if err != nil && ipItems.Length() == 0 {", Expect: "load-result|bfe_util/ipdict/txt_load.TxtFileLoader.CheckAndLoad"},
+			{Name: "block-iptable-sentinel-error-accepted", File: "bfe_modules/mod_block/global_ip_table_load.go", Old: "	if err != nil {\n		return nil, fmt.Errorf(\"load dict: %s\", err.Error())\n	}", New: "	if err != nil && err != txt_load.ErrMaxLineExceed {\n		return nil, fmt.Errorf(\"load dict: %s\", err.Error())\n	}", Expect: "load-result|bfe_modules/mod_block.GlobalIPTableLoad"},
+			{Name: "silent-block-publish-positive-form-logged", File: "bfe_modules/mod_block/mod_block.go", Old: "	if err != nil {\n		return fmt.Errorf(\"err in GlobalIPTableLoad(%s):%s\", path, err)\n	}\n\n	m.ipTable.Update(items)\n	return nil", New: "	if err == nil {\n		log.Logger.Info(\"%s: global ip table loaded from %s\", m.name, path)\n		m.ipTable.Update(items)\n		return nil\n	}\n	return fmt.Errorf(\"err in GlobalIPTableLoad(%s):%s\", path, err)", Silent: true},
+			{Name: "silent-securelink-publish-helper", File: "bfe_modules/mod_secure_link/mod_secure_link.go", Old: "	// update to rule table\n	m.ruleTable.Update(conf)\n\n	return nil\n}", New: "	m.publish(conf)\n\n	return nil\n}\n\nfunc (m *ModuleSecureLink) publish(conf *Data) {\n	m.ruleTable.Update(conf)\n}", Silent: true},
 			{Name: "silent-jwt-alg-pinned", File: "bfe_modules/mod_auth_jwt/auth_jwt_rule_load.go", Old: "	return p.key.Key, nil\n", New: "	if p.key.Algorithm != \"\" && token.Method.Alg() != p.key.Algorithm {\n		return nil, fmt.Errorf(\"unexpected signing method: %s\", token.Method.Alg())\n	}\n	return p.key.Key, nil\n", Silent: true},
 			{Name: "jwt-key-from-token-header", File: "bfe_modules/mod_auth_jwt/auth_jwt_rule_load.go", Old: "	return p.key.Key, nil\n", New: "	if k, ok := token.Header[\"jwk\"]; ok {\n		return k, nil\n	}\n	return p.key.Key, nil\n", Expect: "jwt-key|"},
 			{Name: "silent-jwt-success-first", File: "bfe_modules/mod_auth_jwt/mod_auth_jwt.go", Old: "			if err != nil {\n				if openDebug {\n					log.Logger.Debug(\"%s: check auth jwt error: %v\", m.name, err)\n				}\n\n				m.state.ReqAuthFailure.Inc(1)\n				return bfe_module.BfeHandlerResponse, m.createUnauthorizedResp(req, &rule)\n			}\n\n			m.state.ReqAuthSuccess.Inc(1)\n			return bfe_module.BfeHandlerGoOn, nil\n", New: "			if err == nil {\n				m.state.ReqAuthSuccess.Inc(1)\n				return bfe_module.BfeHandlerGoOn, nil\n			}\n			if openDebug {\n				log.Logger.Debug(\"%s: check auth jwt error: %v\", m.name, err)\n			}\n			m.state.ReqAuthFailure.Inc(1)\n			return bfe_module.BfeHandlerResponse, m.createUnauthorizedResp(req, &rule)\n", Silent: true},
@@ -155,6 +163,7 @@ func runC51(c *core.Ctx) {
 	mdC51JWT(c, goOn, reject, needResp, matched)
 	mdC51SecureLink(c, goOn, reject, needResp, matched)
 	mdC51Block(c, vc, matched)
+	mdC51Loads(c)
 
 	c.Min("goon-guard", 5)
 	c.Min("reject-verdict", 5)
